@@ -405,6 +405,14 @@ PROPS['C17'] = dict(
           '12 indexed parameters w[0..11] come back in numeric index order for three insertion orders', env=_SYMFF),
         O('C17.conditional_values', 'harness.c17_external', 'conditional_values', 120, 600,
           'only active children presented; unknown or inactive parameters raise ValueError (no silent truncation)', env=_SYMFF),
+        O('C17.recreated_study', 'harness.c17_clients', 'recreated_study', 120, 300,
+          'clients.Trial.parameters follows the CURRENT declaration after the study was deleted and re-created under the same '
+          'owner / id with other declarations (float- vs integer-valued discrete, categorical vs boolean vs continuous)',
+          '6 ordered pairs of declarations x read-before-delete yes/no', no_validate=True),
+        O('C17.same_name_children', 'harness.c17_clients', 'same_name_children', 120, 300,
+          'a child declared differently under different parent values (integer-valued under one, float-valued under the '
+          'other) is presented per the declaration active for the trial (clients.Trial.parameters and trial_parameters)',
+          '2 parent values x 2 values', no_validate=True),
         O('C17.conditional_other_parents', 'harness.c17_external', 'conditional_other_parents', 240, 600,
           'conditional parents that are boolean, integer-valued discrete or integer: the active child is presented with its '
           'declared type next to the parent (bool as True/False), an inactive child is an error', env=_SYMFF),
